@@ -583,3 +583,5 @@ META = {
                    'static specification short of re-implementing it) - explicitly not claimed',
     'technique': 'aliasing/copy-depth rule + memo-key completeness rule + sibling-construction comparison in the index domain',
 }
+
+META['explanation'] += ' ' + 'Further necessary conditions of exactness: the OMEN model is read-only for the generator; _fill_out_parse_tree gives up only when no transition fits (a budget is never refused by size for length > 1); every emitted string is built from the current parse tree and construction-time attributes; both level cursors visit cur..min(max_level, budget) inclusive; exact last transition; existing candidates are always taken.'
